@@ -5,6 +5,7 @@ import (
 	"fmt"
 	"reflect"
 	"sort"
+	"strings"
 	"testing"
 
 	"github.com/netflix/rend/common"
@@ -265,6 +266,10 @@ func execC07(t *testing.T, p Plan, src kernel.Source) Result {
 				w.SegMode = 2
 			}
 			w.LogEvents = p.X["log"] != 0
+			// decode buffers and headers come from shared pools: one handed back twice, or
+			// used after it was handed back, is a decoded request that can change under its
+			// reader's feet. The simulated pools notice both.
+			w.Run.Poison = true
 			stack.Build(w, p.Cfg, wrap)
 			conns := make([]*kernel.ClientConn, len(p.Conns))
 			for i, cs := range p.Conns {
@@ -334,6 +339,10 @@ func execC07(t *testing.T, p Plan, src kernel.Source) Result {
 					return
 				}
 				cc.Consume(len(cc.Unread()))
+				if faults := w.Run.TakeFaults(); len(faults) > 0 {
+					viol("pool_misuse", class, "while decoding %s rend misused a shared pool of decode objects: %s", describePipe(st.Pipe), strings.Join(faults, "; "))
+					return
+				}
 			}
 		})
 		if vi == 1 {
@@ -513,7 +522,7 @@ func init() {
 			}
 			return false
 		},
-		Rule:      "seeded pipelines (1-20 requests) of every supported command in both protocols: binary keys 1..250 of arbitrary bytes (NUL, CR, LF, space, 0x80, 0xff), printable text keys 1..250, data 0..64 KiB with CR/LF/0x80, flags/TTL/opaque from {0, 1, 2^31, 2^32-1, 30-day boundary, random}, quiet sets, quiet-get batches closed by get or noop, gete; each pipeline is executed under 5-6 segmentations of its byte stream (whole, kernel-drawn, cut exactly at every request/header/extras/key/value boundary and at boundary-1 and +1, bytewise when <= 3000 bytes); the schedule here is transport delivery. Oracle: request structs recorded by a recording orchestrator (OrcaConst seam, delegating to the real L1-only orchestrator) equal the generator's intent field by field, no request missing or extra, no byte left unread. Non-trivial = a pipeline with more than one request; distinct = distinct plan hash",
+		Rule:      "seeded pipelines (1-20 requests) of every supported command in both protocols: binary keys 1..250 of arbitrary bytes (NUL, CR, LF, space, 0x80, 0xff), printable text keys 1..250, data 0..64 KiB with CR/LF/0x80, flags/TTL/opaque from {0, 1, 2^31, 2^32-1, 30-day boundary, random}, quiet sets, quiet-get batches closed by get or noop, gete; each pipeline is executed under 5-6 segmentations of its byte stream (whole, kernel-drawn, cut exactly at every request/header/extras/key/value boundary and at boundary-1 and +1, bytewise when <= 3000 bytes); the schedule here is transport delivery. Oracle: request structs recorded by a recording orchestrator (OrcaConst seam, delegating to the real L1-only orchestrator) equal the generator's intent field by field, no request missing or extra, no byte left unread. Non-trivial = a pipeline with more than one request; distinct = distinct plan hash. The shared pools the decoder takes headers and buffers from are the simulated ones that poison on Put and report a double Put or a use after Put",
 		Real:      realFullStack,
 		Stub:      append(append([]string{}, stubFullStack...), "recording orchestrator decorator (records, then delegates to the real one)"),
 		RunsQuick: 1500, RunsThorough: 40000,
